@@ -607,7 +607,7 @@ impl expr::Expr
 								{
 									match (lhs.size, rhs.size)
 									{
-										(Some(lhs_width), Some(rhs_width)) => Ok(expr::Value::make_integer(lhs.concat((lhs_width, 0), &rhs, (rhs_width, 0)))),
+										(Some(lhs_width), Some(rhs_width)) => Ok(expr::Value::make_integer(lhs.checked_concat(report, span, lhs_width, &rhs, rhs_width)?)),
 										(None, _) => Err(report.error_span("argument to concatenation with indefinite size", lhs_expr.span())),
 										(_, None) => Err(report.error_span("argument to concatenation with indefinite size", rhs_expr.span()))
 									}
